@@ -38,7 +38,7 @@ LEVEL_NOTE = "Trusted: numpy linear algebra and the analytic formulas in vlib/mc
 def budget(tier: str) -> dict:
     if tier == "quick":
         return {"examples": 240}
-    return {"examples": 1200, "shards": 8}
+    return {"examples": 1200, "shards": 8, "fuzz_seconds": 45}
 
 
 _order = st.sampled_from([0.5, 1.0, 1.0, 2.0, 3.0])
